@@ -106,6 +106,7 @@ type Config struct {
 	Full        *FullSpec
 	ByzVariants []string // proposal variants offered (nil = A, B and every invalid variant)
 	ByzProposer bool     // make the (single) Byzantine validator the round-1 proposer of height 1
+	ByzTurn     int      // with ByzProposer: the k-th proposer of the rotation instead (2 = round 2 of height 1, or round 1 of height 2 when height 1 is decided in its first round)
 	Driver      string   // scripted prefix executed before the exploration starts ("" = genesis)
 }
 
@@ -176,7 +177,7 @@ type World struct {
 	// per receiver: message id -> receiver version at which it was last delivered
 	seen       []map[string]string
 	ever       []map[string]uint64
-	Blocks     map[string]*BlockInfo // by block hash hex
+	Blocks     map[string]*BlockInfo // by idKey(block id)
 	partArc    map[common.Hash]map[uint32]*types.Part
 	propArc    map[string]*types.Proposal // by signature hex
 	propMsg    map[string]*Msg
@@ -262,7 +263,11 @@ func NewWorld(cfg Config, x *explore.Ctx) *World {
 	}
 	w.Gen = gen
 	if cfg.ByzProposer {
-		first := consensus.VerifMakeGenesisState(gen).Validators.GetProposer().Address
+		vs0 := consensus.VerifMakeGenesisState(gen).Validators
+		if cfg.ByzTurn > 1 {
+			vs0 = vs0.CopyIncrementProposerPriority(int64(cfg.ByzTurn - 1))
+		}
+		first := vs0.GetProposer().Address
 		cfg.Byz = []int{w.valIndexOfAddr(first)}
 		w.Cfg = cfg
 	}
@@ -436,6 +441,13 @@ func (w *World) Close() {
 // ---------------------------------------------------------------------------------------------
 // message wrapping and identity
 
+func idKey(id types.BlockID) string {
+	return fmt.Sprintf("%x/%d/%x", id.Hash, id.PartsHeader.Total, id.PartsHeader.Hash)
+}
+
+// blockByID finds a known block by its whole id.
+func (w *World) blockByID(id types.BlockID) *BlockInfo { return w.Blocks[idKey(id)] }
+
 func blockKey(id types.BlockID) string {
 	if id.IsZero() {
 		return "nil"
@@ -539,12 +551,14 @@ func (w *World) archiveFrom(i int) {
 }
 
 func (w *World) noteBlock(b *types.Block, ps *types.PartSet, origin, invalid string) *BlockInfo {
-	k := fmt.Sprintf("%x", b.Hash())
-	if bi, ok := w.Blocks[k]; ok {
-		return bi
-	}
 	if ps == nil {
 		ps = b.MakePartSet(types.BlockPartSizeBytes)
+	}
+	// by the whole block id: the block hash does not cover the height, round and block id of LastCommit, so two
+	// different blocks (different part sets) can share it
+	k := idKey(types.BlockID{Hash: b.Hash(), PartsHeader: ps.Header()})
+	if bi, ok := w.Blocks[k]; ok {
+		return bi
 	}
 	if !strings.HasPrefix(origin, "byz:") {
 		origin = fmt.Sprintf("p%d", w.valIndexOfAddr(b.ProposerAddress()))
